@@ -15,8 +15,8 @@ TECHNIQUE = 'Hypothesis PBT against a brute-force minimum-image oracle plus metr
 LEVEL = 'Generated-input exploration: thousands of point sets per run are judged against an independent fractional-reduction oracle and the metric laws (symmetry, triangle inequality over all triples, bounds, squared flag, sklearn equality, rejection of a mismatched cell). No absence claim: strength = the counted distinct non-trivial cases in the evidence.'
 BUDGET = {"quick": 1200, "thorough": 25000}
 RULE = ("Cases: dimension 1..6, 1..7 x 1..7 points (thorough: up to 16), anisotropic cell "
-        "sides e^[-2,2]; coordinates either seeded-uniform up to 1e4 cell lengths away or "
-        "exact multiples of cell/4 (ties at exactly half a cell), integer image shifts -5..5, "
+        "sides e^[-2,2]; coordinates either seeded-uniform up to 1e4 cell lengths away exact multiples of cell/4 (ties at exactly half a cell) or "
+        "integer-typed arrays with a non-integer cell, integer image shifts -5..5, "
         "1..3 SPD precision matrices L L^T.  Oracle: minimum image by fractional reduction "
         "frac-floor / min(f,1-f) on explicit differences (independent of round()). "
         "Non-trivial: >= 2 point pairs and at least one pair whose minimum-image displacement "
@@ -34,7 +34,7 @@ def strategy_(draw, tier):
     n = draw(st.integers(1, 16 if big else 7))
     k = draw(st.integers(1, 16 if big else 7))
     cell = np.exp(draw(hnp.arrays(np.float64, (d,), elements=st.floats(-2, 2, width=32))))
-    kind = draw(st.sampled_from(["uniform", "uniform", "quarters"]))
+    kind = draw(st.sampled_from(["uniform", "uniform", "quarters", "integers"]))
     if kind == "uniform":
         mag = 10.0 ** draw(st.floats(0, 4, width=32))
         rng = gen.rng_of(draw)
@@ -46,6 +46,10 @@ def strategy_(draw, tier):
             j = draw(st.integers(0, k - 1))
             h = draw(hnp.arrays(np.int64, (d,), elements=st.integers(-3, 3)))
             Y[j] = X[i] + 0.5 * cell * h
+    elif kind == "integers":
+        # integer-typed coordinates with a non-integer cell: the result must be that of the same numbers as floats
+        X = draw(hnp.arrays(np.int64, (n, d), elements=st.integers(-20, 20)))
+        Y = draw(hnp.arrays(np.int64, (k, d), elements=st.integers(-20, 20)))
     else:
         X = draw(hnp.arrays(np.int64, (n, d), elements=st.integers(-20, 20))) * (cell / 4)
         Y = draw(hnp.arrays(np.int64, (k, d), elements=st.integers(-20, 20))) * (cell / 4)
@@ -70,6 +74,8 @@ def min_image_ref(X, Y, cell):
 
 def check(case, ctx):
     cell, X, Y, L = case["cell"], case["X"], case["Y"], case["L"]
+    Xi, Yi = X, Y                      # as supplied (possibly integer-typed)
+    X, Y = np.asarray(X, float), np.asarray(Y, float)
     n, d = X.shape
     k = Y.shape[0]
     shX = case["shX"] * cell
@@ -78,6 +84,10 @@ def check(case, ctx):
     tol = 1e-11 * (maxabs + np.linalg.norm(cell))
     ctx.cls("kind=" + case["kind"], "d=%d" % d)
 
+    if case["kind"] == "integers":
+        with ctx.lib("periodic-int"):
+            Dint = ppd(Xi, Yi, cell_length=cell)
+            Mint = pmd(Xi, Yi, np.eye(d), cell_length=cell)
     with ctx.lib("periodic"):
         D = ppd(X, Y, cell_length=cell)
         Dt = ppd(Y, X, cell_length=cell)
@@ -97,6 +107,9 @@ def check(case, ctx):
     ctx.cls("half_cell_pair=%s" % half)
 
     ctx.true("shape", D.shape == (n, k), "shape %s" % (D.shape,))
+    if case["kind"] == "integers":
+        ctx.close("integer-typed-input", Dint, D, tol, "integer-typed X/Y vs the same values as floats")
+        ctx.close("integer-typed-input(mahalanobis)", Mint[0] ** 2, D ** 2, 8 * tol * (D.max() + tol) + 1e-15 * D.max() ** 2, "integer-typed input, identity precision")
     ctx.close("oracle", D, Dref, tol, "periodic distance vs minimum-image oracle")
     ctx.true("nonneg", bool(np.all(D >= 0)) and bool(np.all(Dxx >= 0)), "negative distance")
     ctx.close("symmetry", D, Dt.T, tol, "d(X,Y) vs d(Y,X)^T")
